@@ -33,3 +33,6 @@ Theorem C09_indexed_query_field_score : forall idf n q, wf_query idf n q -> fres
   api_veq (edismax idf n q) (edismax_spec idf n q).
 Proof. exact C09_indexed. Qed.
 Print Assumptions C09_indexed_query_field_score.
+
+(* Assumptions of the remaining named statements of this file (the gate requires one per statement). *)
+Print Assumptions C09_and_is_100pct.
